@@ -93,7 +93,7 @@ def main():
             lines.append(f"| {k} | {', '.join(f'{p}:{rc}' for p, rc in res.items())} | {note} |")
         lines += ["", f"{caught} of {len(r)} faults are reported; the {len(r) - caught} quiet ones are equivalent changes with respect to the property (see notes).", ""]
     lines += ["### 10.3 False-alarm runs on the unchanged (repaired) tree", "",
-              "* every quick check was run at VERIF_SEED 1 to 8 in fresh processes with PYTHONHASHSEED=0 (seeds 2-5 before the third seeded round, seeds 1, 6, 7 and 8 on the final code): "
+              "* every quick check was run at VERIF_SEED 1 to 9 in fresh processes with PYTHONHASHSEED=0 (seeds 2-5 before the third seeded round, seeds 1, 6, 7, 8 and 9 on the final code): "
               "no VIOLATION, no harness error, no budget hit;",
               "* `vp check` (fresh copy of the sandbox, offline, setup_cmd + every quick command): request 1 flagged one alarm - C20 could not parse a `-inf` cell of the CSV report "
               "(machinery error, corrected, section 9); requests 2, 3 and 4 (after the second round, after the third, and on the final committed state): nothing needed attention;",
